@@ -553,6 +553,21 @@ def cost_passthrough(prog: Program) -> RuleResult:
         ]
         if not stores:
             raise AnalysisError("_from_dict: no store into the cost vector inside the cost loop")
+        rebinds = [
+            n for n in ast.walk(loop)
+            if (isinstance(n, ast.Assign) and any(isinstance(t, ast.Name) and t.id == vname2 for t in n.targets))
+            or (isinstance(n, ast.AugAssign) and isinstance(n.target, ast.Name) and n.target.id == vname2)
+            or (isinstance(n, ast.NamedExpr) and n.target.id == vname2)
+        ]
+        for rb in rebinds:
+            found = True
+            res.fail(
+                f"{model}:ReconciliationInput._from_dict/costs",
+                f"the cost read from the dictionary is rewritten (`{short(rb, 80)}`) before it is stored: the parsed "
+                "cost vector differs from the written one (e.g. 1.5 becomes 1)",
+                mmod,
+                rb,
+            )
         for st in stores:
             found = True
             skipping = [g for g, _p in guards(fd, st) if vname2 in {n.id for n in ast.walk(g) if isinstance(n, ast.Name)}]
@@ -851,7 +866,23 @@ def sort_key_aligned(prog: Program) -> RuleResult:
     if any(g.ifs for g in comp.generators):
         res.fail(construct, f"the key drops parts of the split (`{short(comp.generators[0].ifs[0])}`): text and digit positions no longer line up between names", mod, comp)
     else:
-        res.ok(construct, short(comp, 90))
+        # the iterated sequence, through local names, is the split itself
+        keyfn = next((f for f in ast.walk(fn) if isinstance(f, (ast.FunctionDef, ast.Lambda)) and f is not fn and any(n is comp for n in ast.walk(f))), fn)
+        src = comp.generators[0].iter
+        seen = 0
+        while isinstance(src, ast.Name) and seen < 5:
+            seen += 1
+            defs = [a for a in ast.walk(keyfn) if isinstance(a, ast.Assign) and any(isinstance(t, ast.Name) and t.id == src.id for t in a.targets)]
+            if len(defs) != 1:
+                raise AnalysisError(f"sort_synteny: `{src.id}` has {len(defs)} definitions")
+            src = defs[0].value
+        is_split = isinstance(src, ast.Call) and isinstance(src.func, ast.Attribute) and src.func.attr == "split"
+        if is_split:
+            res.ok(construct, short(comp, 90))
+        elif any(isinstance(n, ast.Call) and isinstance(n.func, ast.Attribute) and n.func.attr == "split" for n in ast.walk(src)):
+            res.fail(construct, f"the key is built from `{short(src)}`, not from every part of the split: dropping or re-arranging parts misaligns text and digit positions between names", mod, comp)
+        else:
+            raise AnalysisError(f"sort_synteny: key parts `{short(src)}` do not come from a split")
     return res
 
 # ---------------------------------------------------------------------------
